@@ -1,7 +1,8 @@
 (** The regularity hypothesis of the geometry theorem ([on_line], stated on the sorted list) follows from a
-    condition on the SOURCES ([sources_regular]) for every freshly sorted stack: the sorter puts the file
-    with the s-th smallest slice position at slice s of every volume. *)
-From Coq Require Import List Bool Arith ZArith NArith QArith Qcanon Lia Lqa Permutation.
+    condition on the SOURCES ([sources_regular]); for irregularly spaced sources the exact position error is
+    derived.  Key fact: in every reachable stack whose shape is cached (and in every stack that get_shape just
+    sorted) the file with the s-th smallest slice position sits at slice s of every volume. *)
+From Coq Require Import List Bool Arith ZArith NArith QArith Qcanon Lia Lqa Permutation Sorted.
 From DV Require Import Common.Res Common.Str Generated.T_conv Generated.T_stack
   Stack.Model Stack.Sort Stack.Order Stack.Spec Stack.ProofsOrder Stack.ProofsShape Stack.ProofsInv Stack.ProofsC11
   Orient.Model Orient.Spec Orient.ProofsArr Orient.ProofsAff
@@ -38,13 +39,13 @@ Lemma compute_shape_check st st' sh :
     length (files_info st') = length (vec_vals st) * T * length (pos_vals st) /\
     order_check (files_info st') (ssort qc_leb (pos_vals st)) (length (pos_vals st)) T (length (vec_vals st)) = true /\
     sh = shape_of (e_file (nth 0 (files_info st') dflt_entry)) (length (pos_vals st)) T (length (vec_vals st)) /\
-    pos_vals st' = pos_vals st.
+    pos_vals st' = pos_vals st /\ vec_vals st' = vec_vals st.
 Proof.
   unfold compute_shape.
   destruct (grid_dims _ _ _ _) as [[nvol T]|e] eqn:Hd; [|discriminate].
   apply grid_dims_ok in Hd. destruct Hd as (HS & HV & HT & Hn & -> & _).
   destruct (order_files st _ _ _ T _) as [fi2 r] eqn:Eo. destruct r as [[]|e]; [|discriminate].
-  intros H. injection H as <- <-. exists T. cbn [files_info with_shape with_files pos_vals].
+  intros H. injection H as <- <-. exists T. cbn [files_info with_shape with_files pos_vals vec_vals].
   assert (Hchk : order_check fi2 (ssort qc_leb (pos_vals st)) (length (pos_vals st)) T (length (vec_vals st)) = true).
   { unfold order_files in Eo.
     destruct ((1 <? length (vec_vals st) * T) && negb (cfg_time st) && negb (cfg_vec st)).
@@ -72,7 +73,175 @@ Proof.
     - pose proof (chk_order_perm (files_info st) (ssort qc_leb (pos_vals st)) (length (pos_vals st))
                     (length (vec_vals st) * T) T (length (vec_vals st))) as Hp.
       rewrite Eo in Hp. cbn [fst] in Hp. apply Permutation_length in Hp. exact Hp. }
-  repeat split; assumption.
+  repeat split; try assumption; reflexivity.
+Qed.
+
+(* ------------------------------------------------------------------------------------------ *)
+(** * An invariant of the sorter: a cached shape means the file list passed the order check *)
+
+Definition clean_sorted (st : state) : Prop :=
+  shape_dirty st = false ->
+  exists T,
+    0 < length (pos_vals st) /\ 0 < T /\ 0 < length (vec_vals st) /\
+    length (files_info st) = length (vec_vals st) * T * length (pos_vals st) /\
+    order_check (files_info st) (ssort qc_leb (pos_vals st)) (length (pos_vals st)) T (length (vec_vals st)) = true /\
+    cached_shape st = Some (shape_of (e_file (nth 0 (files_info st) dflt_entry)) (length (pos_vals st)) T (length (vec_vals st))).
+
+Lemma compute_shape_err_dirty st st' e : compute_shape st = (st', Err e) -> shape_dirty st' = shape_dirty st.
+Proof.
+  unfold compute_shape. destruct (grid_dims _ _ _ _) as [[nvol T]|e0].
+  - destruct (order_files st _ _ nvol T _) as [fi2 [[]|e1]]; intros H; [discriminate|]. injection H as <- _. reflexivity.
+  - intros H. injection H as <- _. reflexivity.
+Qed.
+
+Lemma get_shape_clean_sorted st : clean_sorted st -> clean_sorted (fst (get_shape st)).
+Proof.
+  intros Hc. unfold get_shape. destruct (shape_dirty st) eqn:Hd; [|exact Hc].
+  destruct (compute_shape st) as [st' r] eqn:Ec. cbn [fst]. destruct r as [sh|e].
+  - intros _. destruct (compute_shape_check _ _ _ Ec) as (T & H1 & H2 & H3 & H4 & H5 & H6 & H7 & H8).
+    destruct (compute_shape_ok_form _ _ _ Ec) as [_ Hcs].
+    exists T. rewrite H7, H8, Hcs, H6. repeat split; assumption.
+  - intros Hd'. rewrite (compute_shape_err_dirty _ _ _ Ec), Hd in Hd'. discriminate.
+Qed.
+
+Lemma add_dcm_dirty st f st' : add_dcm st f = Ok st' -> shape_dirty st' = true.
+Proof.
+  unfold add_dcm. destruct (negb (f_has_pix f)); [discriminate|].
+  destruct (negb (congruent st f)); [discriminate|].
+  destruct ((cfg_time st || cfg_vec st) && existsb _ (tuples st)); [discriminate|].
+  intros H. injection H as <-. reflexivity.
+Qed.
+
+Lemma clean_sorted_edits st ed : clean_sorted st -> clean_sorted (with_edits st ed).
+Proof. intros H. exact H. Qed.
+
+Lemma get_data_state st : fst (get_data st) = fst (get_shape st).
+Proof. unfold get_data. destruct (get_shape st) as [s1 [sh|e]]; reflexivity. Qed.
+
+Lemma get_affine_clean_sorted st : clean_sorted st -> clean_sorted (fst (get_affine st)).
+Proof.
+  intros Hc. pose proof (get_shape_clean_sorted st Hc) as G. unfold get_affine.
+  destruct (get_shape st) as [s1 [sh|e]]; cbn [fst] in *; [|exact G].
+  destruct (1 <? length (files_info s1) / nvols_of_shape sh); cbn [fst]; [apply clean_sorted_edits, G | exact G].
+Qed.
+
+Lemma to_nifti_clean_sorted st vo em : clean_sorted st -> clean_sorted (fst (to_nifti st vo em)).
+Proof.
+  intros Hc. unfold to_nifti.
+  pose proof (get_shape_clean_sorted st Hc) as G1. rewrite <- get_data_state in G1.
+  destruct (get_data st) as [s1 [[ids sh]|e]]; cbn [fst] in *; [|exact G1].
+  pose proof (get_affine_clean_sorted s1 G1) as G2.
+  destruct (get_affine s1) as [s2 [[i0 col]|e]]; cbn [fst] in *; [|exact G2].
+  match goal with |- context [if ?b then _ else s2] => destruct b end; cbn [fst]; [|exact G2].
+  intros Hd. discriminate Hd.
+Qed.
+
+Lemma step_clean_sorted st o : clean_sorted st -> clean_sorted (fst (step st o)).
+Proof.
+  intros Hc. destruct o as [f| | | |vo em|vo]; cbn [step].
+  - destruct (add_dcm st f) as [st'|e] eqn:E; cbn [fst]; [|exact Hc].
+    intros Hd. rewrite (add_dcm_dirty _ _ _ E) in Hd. discriminate.
+  - pose proof (get_shape_clean_sorted st Hc) as G. destruct (get_shape st); exact G.
+  - pose proof (get_shape_clean_sorted st Hc) as G. rewrite <- get_data_state in G. destruct (get_data st); exact G.
+  - pose proof (get_affine_clean_sorted st Hc) as G. destruct (get_affine st); exact G.
+  - pose proof (to_nifti_clean_sorted st vo em Hc) as G. destruct (to_nifti st vo em); exact G.
+  - pose proof (to_nifti_clean_sorted st vo true Hc) as G. unfold to_nifti_wrapper. destruct (to_nifti st vo true); exact G.
+Qed.
+
+Lemma run_clean_sorted h : forall st, clean_sorted st -> clean_sorted (run st h).
+Proof. induction h as [|o h IH]; intros st Hc; cbn [run]; [exact Hc | apply IH, step_clean_sorted, Hc]. Qed.
+
+Lemma reachable_clean_sorted st : reachable st -> clean_sorted st.
+Proof. intros (ct & cv & h & ->). apply run_clean_sorted. intros Hd. discriminate Hd. Qed.
+
+(* ------------------------------------------------------------------------------------------ *)
+(** * Positions along the sorted list *)
+
+Lemma get_shape_pos_sets st :
+  pos_vals (fst (get_shape st)) = pos_vals st /\ vec_vals (fst (get_shape st)) = vec_vals st.
+Proof.
+  unfold get_shape. destruct (shape_dirty st); [|auto].
+  unfold compute_shape.
+  destruct (grid_dims _ _ _ _) as [[nvol T]|e]; [|auto].
+  destruct (order_files st _ _ nvol T _) as [fi2 [[]|e]]; cbn; auto.
+Qed.
+
+Lemma get_shape_ok_clean st st1 sh :
+  get_shape st = (st1, Ok sh) -> shape_dirty st1 = false /\ cached_shape st1 = Some sh.
+Proof.
+  unfold get_shape. destruct (shape_dirty st) eqn:Hd.
+  - intros E. apply compute_shape_ok_form in E. exact E.
+  - destruct (cached_shape st) as [sh'|] eqn:Ec; intros E; [|discriminate]. injection E as <- <-. auto.
+Qed.
+
+Lemma decompose_pos S T V k :
+  0 < S -> 0 < T -> k < V * T * S ->
+  k = (k / S / T) * T * S + (k / S mod T) * S + k mod S /\ k / S / T < V /\ k / S mod T < T /\ k mod S < S.
+Proof.
+  intros HS HT Hk.
+  pose proof (Nat.div_mod k S ltac:(lia)) as E1.
+  pose proof (Nat.div_mod (k / S) T ltac:(lia)) as E2.
+  pose proof (Nat.mod_upper_bound k S ltac:(lia)).
+  pose proof (Nat.mod_upper_bound (k / S) T ltac:(lia)).
+  assert (k / S < V * T) by (apply Nat.div_lt_upper_bound; nia).
+  assert (k / S / T < V) by (apply Nat.div_lt_upper_bound; nia).
+  repeat split; try assumption. nia.
+Qed.
+
+Lemma grid_shape_inj r1 c1 S1 T1 V1 r2 c2 S2 T2 V2 :
+  0 < S1 -> 0 < T1 -> 0 < V1 -> 0 < S2 -> 0 < T2 -> 0 < V2 ->
+  grid_shape r1 c1 S1 T1 V1 = grid_shape r2 c2 S2 T2 V2 -> S1 = S2 /\ T1 = T2 /\ V1 = V2.
+Proof.
+  intros ? ? ? ? ? ? Hgs. unfold grid_shape in Hgs.
+  destruct (V1 =? 1) eqn:E1; destruct (V2 =? 1) eqn:E2;
+    try (destruct (T1 =? 1) eqn:E3); try (destruct (T2 =? 1) eqn:E4);
+    try discriminate; injection Hgs as ? ? ?; subst;
+    repeat match goal with E : (_ =? _) = true |- _ => apply Nat.eqb_eq in E end; subst; try lia.
+  all: repeat match goal with E : (_ =? _) = false |- _ => apply Nat.eqb_neq in E end; try lia.
+Qed.
+
+(** the sorted list of a converted stack: position k holds a file whose slice position is the (k mod S)-th
+    smallest of the stack's distinct positions *)
+Lemma sorted_positions st st1 ord r c S T V :
+  wf st -> clean_sorted st -> 0 < S -> 0 < T -> 0 < V ->
+  get_data st = (st1, Ok (ord, grid_shape r c S T V)) ->
+  let P := ssort qc_leb (pos_vals st) in
+  S = length (pos_vals st) /\ length P = S /\ StronglySorted Qclt P /\
+  length (files_info st1) = V * T * S /\
+  forall k, k < length (files_info st1) ->
+    f_pos (e_file (nth k (files_info st1) dflt_entry)) = nth (k mod S) P (Q2Qc 0).
+Proof.
+  intros Hwf Hcs HS HT HV Hd P.
+  assert (Hgs : get_shape st = (st1, Ok (grid_shape r c S T V))).
+  { unfold get_data in Hd. destruct (get_shape st) as [s1 [sh1|e1]]; [|discriminate]. injection Hd as <- _ <-. reflexivity. }
+  pose proof (get_shape_clean_sorted st Hcs) as Hcs1. rewrite Hgs in Hcs1. cbn [fst] in Hcs1.
+  destruct (get_shape_ok_clean _ _ _ Hgs) as [Hd1 Hc1].
+  destruct (get_shape_pos_sets st) as [Hpv Hvv]. rewrite Hgs in Hpv, Hvv. cbn [fst] in Hpv, Hvv.
+  destruct (Hcs1 Hd1) as (T0 & HS0 & HT0 & HV0 & Hlen0 & Hchk & Hcached).
+  rewrite Hpv, Hvv in *. rewrite Hc1 in Hcached. injection Hcached as Hsh.
+  rewrite shape_of_grid in Hsh by exact HS0.
+  destruct (grid_shape_inj _ _ _ _ _ _ _ _ _ _ HS HT HV HS0 HT0 HV0 Hsh) as (ES & ET & EV).
+  assert (Hwf1 : wf st1) by (pose proof (get_shape_wf st Hwf) as G; rewrite Hgs in G; exact G).
+  destruct Hwf as [Hwf0 _].
+  destruct (pos_sorted st Hwf0) as (HPs & _ & HPl).
+  split; [exact ES|]. split; [fold P in HPl; rewrite HPl; symmetry; exact ES|]. split; [exact HPs|].
+  rewrite <- ES, <- ET, <- EV in Hlen0, Hchk. split; [exact Hlen0|].
+  pose proof (proj1 (order_check_spec _ _ _ _ _) Hchk) as Hspec.
+  destruct Hwf1 as [Hwf10 _].
+  intros k Hk. rewrite Hlen0 in Hk.
+  destruct (decompose_pos S T V k HS HT Hk) as (Ek & Hvi & Hti & Hsi).
+  destruct (Hspec _ _ _ Hvi Hti Hsi) as [_ Hp]. rewrite <- Ek in Hp.
+  change dflt_tuple with (e_tuple dflt_entry) in Hp. rewrite map_nth in Hp.
+  unfold P. rewrite <- Hp. symmetry. apply (w_entry st1 Hwf10). apply nth_In. rewrite Hlen0. exact Hk.
+Qed.
+
+Lemma strongly_sorted_nth (P : list Qc) : StronglySorted Qclt P ->
+  forall a b, a < b -> b < length P -> (nth a P (Q2Qc 0) < nth b P (Q2Qc 0))%Qc.
+Proof.
+  induction 1 as [|x P Hs IH Hall]; intros a b Hab Hb; [cbn in Hb; lia|].
+  destruct b as [|b]; [lia|]. cbn [length] in Hb. destruct a as [|a]; cbn [nth].
+  - rewrite Forall_forall in Hall. apply Hall, nth_In. lia.
+  - apply IH; lia.
 Qed.
 
 (* ------------------------------------------------------------------------------------------ *)
@@ -90,81 +259,57 @@ Proof.
 Qed.
 
 (* ------------------------------------------------------------------------------------------ *)
-(** * sources_regular -> on_line *)
+(** * From the sources to the sorted list *)
 
-Lemma decompose_pos S T V k :
-  0 < S -> 0 < T -> k < V * T * S ->
-  k = (k / S / T) * T * S + (k / S mod T) * S + k mod S /\ k / S / T < V /\ k / S mod T < T /\ k mod S < S.
+Lemma slice_dev_sum P s : (slice_dev P s == gap_excess P s)%Q.
 Proof.
-  intros HS HT Hk.
-  pose proof (Nat.div_mod k S ltac:(lia)) as E1.
-  pose proof (Nat.div_mod (k / S) T ltac:(lia)) as E2.
-  pose proof (Nat.mod_upper_bound k S ltac:(lia)).
-  pose proof (Nat.mod_upper_bound (k / S) T ltac:(lia)).
-  assert (k / S < V * T) by (apply Nat.div_lt_upper_bound; nia).
-  assert (k / S / T < V) by (apply Nat.div_lt_upper_bound; nia).
-  repeat split; try assumption. nia.
+  induction s as [|s IH]; unfold slice_dev in *; cbn [gap_excess].
+  - change (NQ 0) with 0%Q. ring.
+  - rewrite <- IH. unfold NQ. rewrite Nat2Z.inj_succ. unfold Z.succ. rewrite inject_Z_plus.
+    change (inject_Z 1) with 1%Q. ring.
 Qed.
 
-Theorem sources_on_line gs st code embed st' go :
-  wf st -> shape_dirty st = true -> sources_regular gs st ->
+Lemma file_at_lt gs fi k g : file_at gs (ids fi) k = Some g -> k < length fi.
+Proof.
+  unfold file_at. destruct (nth_error (ids fi) k) eqn:E; [|discriminate]. intros _.
+  assert (Hlt : k < length (ids fi)) by (apply nth_error_Some; congruence).
+  unfold ids in Hlt. rewrite map_length in Hlt. exact Hlt.
+Qed.
+
+(** the sources lie on a line: position error of every file w.r.t. the lattice spanned by the first two
+    sorted files = (deviation of its slice position) * d *)
+Theorem sources_dev gs st code embed st' go d :
+  wf st -> clean_sorted st -> gfiles_ok gs st -> positions_ok gs st -> sources_line gs st d ->
   conv_geom gs st code embed = (st', Ok go) ->
   forall S T V r c,
     0 < S -> 0 < T -> 0 < V -> o_shape (go_nifti go) = grid_shape r c S T V ->
-    gfiles_ok gs st ->
-    on_line gs (go_ord0 go) S.
+    let P := ssort qc_leb (pos_vals st) in
+    length P = S /\ StronglySorted Qclt P /\
+    (forall k g, file_at gs (go_ord0 go) k = Some g -> (slice_indicator g == pos_at P (k mod S))%Q) /\
+    on_line_dev gs (go_ord0 go) S (fun k q => slice_dev P (k mod S) * vget d q)%Q.
 Proof.
-  intros Hwf Hdirty (G0 & o & d & p0 & dp & Hsrc & Hap) H S' T' V' r' c' HS' HT' HV' Hosh' Hok.
+  intros Hwf Hcs Hok Hpos (G0 & o & Hsrc) H S' T' V' r' c' HS' HT' HV' Hosh' P.
   destruct (conv_setup _ _ _ _ _ _ Hwf H)
     as (st1 & st2 & i0 & col & S & T & V & r & c & Hd & Hwf1 & Ha & Hfi2 & Hord & Hperm & HS & HT & HV & Hlen & Hrc
         & Hi0 & Hcol & Hfpv & Hg0 & HA0 & Hd0 & Hre & Hn & _).
   destruct (to_nifti_out _ _ _ _ _ _ _ _ _ _ _ Hd Ha Hn) as (Hosh & _).
-  (* the sort that just happened *)
-  assert (Hcs : compute_shape st = (st1, Ok (grid_shape r c S T V))).
-  { unfold get_data in Hd. unfold get_shape in Hd. rewrite Hdirty in Hd.
-    destruct (compute_shape st) as [s1 [sh1|e1]]; [|discriminate]. injection Hd as <- _ <-. reflexivity. }
-  destruct (compute_shape_check _ _ _ Hcs) as (T0 & HS0 & HT0 & HV0 & Hlen0 & Hchk & Hsh & Hpv).
-  rewrite shape_of_grid in Hsh by exact HS0.
-  assert (HSTV : forall r1 c1 S1 T1 V1 r2 c2 S2 T2 V2, 0 < S1 -> 0 < T1 -> 0 < V1 -> 0 < S2 -> 0 < T2 -> 0 < V2 ->
-            grid_shape r1 c1 S1 T1 V1 = grid_shape r2 c2 S2 T2 V2 -> S1 = S2 /\ T1 = T2 /\ V1 = V2).
-  { clear. intros r1 c1 S1 T1 V1 r2 c2 S2 T2 V2 ? ? ? ? ? ? Hgs. unfold grid_shape in Hgs.
-    destruct (V1 =? 1) eqn:E1; destruct (V2 =? 1) eqn:E2;
-      try (destruct (T1 =? 1) eqn:E3); try (destruct (T2 =? 1) eqn:E4);
-      try discriminate; injection Hgs as ? ? ?; subst;
-      repeat match goal with E : (_ =? _) = true |- _ => apply Nat.eqb_eq in E end; subst; try lia.
-    all: repeat match goal with E : (_ =? _) = false |- _ => apply Nat.eqb_neq in E end; try lia. }
-  destruct (HSTV _ _ _ _ _ _ _ _ _ _ HS HT HV HS0 HT0 HV0 Hsh) as (ES & ET & EV).
-  assert (E' : S' = S /\ T' = T /\ V' = V).
-  { apply (HSTV r' c' S' T' V' r c S T V); try assumption. congruence. }
+  assert (E' : S' = S /\ T' = T /\ V' = V) by (apply (grid_shape_inj r' c' S' T' V' r c S T V); try assumption; congruence).
   destruct E' as (-> & -> & ->). clear Hosh'.
-  rewrite <- ES, <- ET, <- EV in Hchk. clear HSTV.
-  pose proof (proj1 (order_check_spec _ _ _ _ _) Hchk) as Hspec.
-  destruct Hwf1 as [Hwf10 _].
-  (* position of the file at sorted index k *)
-  assert (Hpos : forall k, k < length (files_info st1) ->
-            f_pos (e_file (nth k (files_info st1) dflt_entry)) = nth (k mod S) (ssort qc_leb (pos_vals st)) (Q2Qc 0)).
-  { intros k Hk. rewrite Hlen in Hk.
-    destruct (decompose_pos S T V k HS HT Hk) as (Ek & Hvi & Hti & Hsi).
-    destruct (Hspec _ _ _ Hvi Hti Hsi) as [_ Hp]. rewrite <- Ek in Hp.
-    change dflt_tuple with (e_tuple dflt_entry) in Hp. rewrite map_nth in Hp.
-    rewrite <- Hp. symmetry. apply (w_entry st1 Hwf10). apply nth_In. rewrite Hlen. exact Hk. }
+  rewrite Hord in Hd.
+  destruct (sorted_positions st st1 _ r c S T V Hwf Hcs HS HT HV Hd) as (ES & HPl & HPs & _ & Hfp). fold P in HPl, HPs, Hfp.
   (* geometry of the file at sorted index k *)
   assert (Hgeo : forall k g, file_at gs (go_ord0 go) k = Some g ->
-            k < length (files_info st1) /\ same_frame g G0 /\
-            forall q, q < 3 -> (vget (g_ipp g) q == vget o q + (p0 + NQ (k mod S) * dp) * vget d q)%Q).
-  { intros k g Hg.
-    assert (Hk : k < length (files_info st1)).
-    { unfold file_at in Hg. destruct (nth_error (go_ord0 go) k) eqn:E; [|discriminate].
-      assert (Hlt : k < length (go_ord0 go)) by (apply nth_error_Some; congruence).
-      rewrite Hord in Hlt. unfold ids in Hlt. rewrite map_length in Hlt. exact Hlt. }
-    split; [exact Hk|].
-    rewrite Hord, file_at_ids in Hg by exact Hk.
+            same_frame g G0 /\ (slice_indicator g == pos_at P (k mod S))%Q /\
+            forall q, q < 3 -> (vget (g_ipp g) q == vget o q + pos_at P (k mod S) * vget d q)%Q).
+  { intros k g Hg. rewrite Hord in Hg. pose proof (file_at_lt _ _ _ _ Hg) as Hk.
+    rewrite file_at_ids in Hg by exact Hk.
     assert (Hin : In (e_file (nth k (files_info st1) dflt_entry)) (files st)).
     { eapply Permutation_in; [exact Hperm|]. unfold files. apply in_map, nth_In, Hk. }
     destruct (Hsrc _ _ Hin Hg) as (Hsf & Hipp). split; [exact Hsf|].
-    intros q Hq. rewrite (Hipp q Hq). rewrite (Hpos k Hk).
-    assert (Hm : k mod S < length (pos_vals st)) by (rewrite <- ES; apply Nat.mod_upper_bound; lia).
-    rewrite (Hap _ Hm). reflexivity. }
+    assert (Hsi : (slice_indicator g == pos_at P (k mod S))%Q).
+    { rewrite <- (Hpos _ _ Hin Hg). rewrite (Hfp k Hk). reflexivity. }
+    split; [exact Hsi|]. intros q Hq. rewrite (Hipp q Hq), Hsi. reflexivity. }
+  split; [exact HPl|]. split; [exact HPs|]. split; [intros k g Hg; apply (Hgeo k g Hg)|].
   (* first and second file *)
   assert (Hl0 : 0 < length (files_info st1)) by (rewrite Hlen; nia).
   destruct (file_at_ok gs st st1 0 Hok Hperm Hl0) as (g0 & Hf0 & _). rewrite <- Hord in Hf0.
@@ -176,15 +321,46 @@ Proof.
     - apply Nat.ltb_ge in E1. exists g0. intros HH. lia. }
   destruct Hex1 as (g1 & Hf1).
   exists g0, g1. split; [exact Hf0|]. split; [exact Hf1|].
-  intros k g Hg. destruct (Hgeo k g Hg) as (Hk & Hsf & Hipp).
-  destruct (Hgeo 0 g0 Hf0) as (_ & Hsf0 & Hipp0).
+  intros k g Hg. destruct (Hgeo k g Hg) as (Hsf & _ & Hipp).
+  destruct (Hgeo 0 g0 Hf0) as (Hsf0 & _ & Hipp0).
   split; [eapply same_frame_trans; [exact Hsf | apply same_frame_sym, Hsf0]|].
   intros q Hq. specialize (Hipp q Hq). specialize (Hipp0 q Hq).
-  rewrite Nat.mod_0_l in Hipp0 by lia. change (NQ 0) with 0%Q in Hipp0.
+  rewrite Nat.mod_0_l in Hipp0 by lia. unfold slice_dev.
   destruct (1 <? S) eqn:E1.
   - apply Nat.ltb_lt in E1. destruct (Hgeo 1 g1 (Hf1 E1)) as (_ & _ & Hipp1).
-    specialize (Hipp1 q Hq). rewrite (Nat.mod_small 1 S E1) in Hipp1. change (NQ 1) with 1%Q in Hipp1.
+    specialize (Hipp1 q Hq). rewrite (Nat.mod_small 1 S E1) in Hipp1.
     rewrite Hipp, Hipp0, Hipp1. ring.
-  - apply Nat.ltb_ge in E1. assert (HS1 : S = 1) by lia. rewrite HS1, Nat.mod_1_r in Hipp. change (NQ 0) with 0%Q in Hipp.
-    rewrite Hipp, Hipp0. ring.
+  - apply Nat.ltb_ge in E1. assert (HS1 : S = 1) by lia. rewrite HS1, Nat.mod_1_r in *.
+    rewrite Hipp, Hipp0. change (NQ 0) with 0%Q. ring.
+Qed.
+
+Lemma on_line_dev_zero gs ord S e :
+  (forall k q, (e k q == 0)%Q) -> on_line_dev gs ord S e -> on_line gs ord S.
+Proof.
+  intros He (g0 & g1 & H0 & H1 & Hall). exists g0, g1. split; [exact H0|]. split; [exact H1|].
+  intros k g Hg. destruct (Hall k g Hg) as [Hsf Hipp]. split; [exact Hsf|].
+  intros r Hr. rewrite (Hipp r Hr), He. ring.
+Qed.
+
+Theorem sources_on_line gs st code embed st' go :
+  wf st -> clean_sorted st -> gfiles_ok gs st -> positions_ok gs st -> sources_regular gs st ->
+  conv_geom gs st code embed = (st', Ok go) ->
+  forall S T V r c,
+    0 < S -> 0 < T -> 0 < V -> o_shape (go_nifti go) = grid_shape r c S T V ->
+    on_line gs (go_ord0 go) S.
+Proof.
+  intros Hwf Hcs Hok Hpos ((d & Hline) & p0 & dp & Hap) H S T V r c HS HT HV Hosh.
+  destruct (sources_dev gs st code embed st' go d Hwf Hcs Hok Hpos Hline H S T V r c HS HT HV Hosh)
+    as (HPl & _ & _ & Hdev).
+  eapply on_line_dev_zero; [|exact Hdev].
+  intros k q. cbv beta.
+  assert (Hz : (slice_dev (ssort qc_leb (pos_vals st)) (k mod S) == 0)%Q).
+  { rewrite ssort_length in HPl.
+    assert (Hm : k mod S < length (pos_vals st)) by (rewrite HPl; apply Nat.mod_upper_bound; lia).
+    unfold slice_dev, pos_at.
+    destruct (Nat.eq_dec S 1) as [E1|N1].
+    - rewrite E1, Nat.mod_1_r. change (NQ 0) with 0%Q. ring.
+    - rewrite (Hap _ Hm). rewrite (Hap 0) by lia. rewrite (Hap 1) by lia.
+      change (NQ 0) with 0%Q. change (NQ 1) with 1%Q. ring. }
+  rewrite Hz. ring.
 Qed.
